@@ -1,5 +1,7 @@
 import YV.Drv.XB
 import YV.Spec.YArg
+import YV.Model.YCheck
+import YV.Spec.YRfc
 namespace YV.Drv.Y
 open Lean YV YV.Y YV.YS YV.Drv
 
@@ -28,9 +30,9 @@ def pieceOf (j : Json) : Piece :=
 /-- ytree / yfuzz: parse the text; yarg: additionally the RFC value of the argument pieces -/
 def handle (j : Json) : List (String × Json) :=
   let input := XB.unhex (jstr j "hex")
-  let r := parse true input
+  let r := parse YC.checkStmt true input
   -- after the repair `stopParse` drains the channel: nothing is left blocked
-  let m := match r with
+  let m : String := match r with
     | .ok root _ _ => s!"ok leak=0 " ++ dumpStmt input root
     | .err l c _ _ => s!"err:{l}:{c} leak=0"
     | p => showParsed input p
@@ -44,6 +46,31 @@ def handle (j : Json) : List (String × Json) :=
     [("m", marg), ("s", "arg:" ++ hexOf v), ("dc", Json.bool (ps.any pieceDontCare))]
   else if jhas j "expect" then
     [("m", m), ("s", jstr j "expect")]
+  else if jbool j "verdict" then
+    let v : String := match r with | .ok _ _ _ => "ok" | _ => m
+    if jhas j "triple" then
+      -- (parent keyword, child keyword, multiplicity): the RFC 6020 table decides
+      match jarr j "triple" with
+      | [p, c, n] =>
+        let ps := strOf p; let cs := strOf c
+        let cnt := match n.getNat? with | .ok k => k | _ => 0
+        let sv := if YR.countOK ps cs cnt then "ok" else "err:1:0 leak=0"
+        [("m", v), ("s", sv), ("dc", Json.bool (YR.isSlack ps cs || ps = "deviate" || ps = "refine" ||
+            -- "at least one data definition" in a list is an ABNF rule (1*data-def), not a table cell
+            (ps = "list" && cs = "leaf" && cnt = 0)))]
+      | _ => [("m", v), ("s", v)]
+    else if jhas j "argkind" then
+      -- argument syntax: the RFC 6020 lexer of the keyword's argument decides
+      let kw := (jstr j "kw").toUTF8.toList.map UInt8.toNat
+      let a := (jstr j "arg").toUTF8.toList.map UInt8.toNat
+      let t := YC.typeOf kw a
+      let k := YC.argKindOf t
+      let okS :=
+        if k = "KeyArg" then (let ks := YC.splitSeps a; !ks.isEmpty && ks.all YC.idRefOK)
+        else if k = "AbsoluteSchemaArg|DescendantSchemaArg" then YC.augmentOK a
+        else YC.argOK k a
+      [("m", v), ("s", if okS then "ok" else "err:1:0 leak=0")]
+    else [("m", v), ("s", v)]
   else [("m", m), ("s", m)]
 
 end YV.Drv.Y
